@@ -121,6 +121,11 @@ def simp(t):
                 const += x[1]
             else:
                 rest.append(x)
+        # x + (-x) cancels
+        for x in list(rest):
+            if x[0] == "neg" and x in rest and x[1] in rest:
+                rest.remove(x)
+                rest.remove(x[1])
         rest.sort(key=key)
         if const != 0 or not rest:
             rest.append(C(const))
